@@ -494,6 +494,6 @@ func TestC17(t *testing.T) {
 	c17Tracker = pooltrack.Start(false)
 	c17Sequential = true
 	defer func() { pooltrack.Stop(); c17Tracker = nil; c17Sequential = false }()
-	runLane(s, Lane[c17Case]{Name: "outlive", Journal: true, Quick: 12000, Thor: 1200000, Gen: c17Gen, Run: c17Run})
+	runLane(s, Lane[c17Case]{Name: "outlive", Journal: true, Quick: 12000, Thor: 500000, Gen: c17Gen, Run: c17Run})
 	runEnum(s, EnumLane[c17Case]{Name: "cuts", Journal: true, N: c17EnumOff[len(c17EnumOff)-1], At: c17EnumAt, Run: c17Run, QuickStride: 3, ThorStride: 1})
 }
